@@ -448,6 +448,19 @@ def run(ck, facts):
               "DiplomatWrite::flush does not call the installed flush callback on every path (%d indirect calls): after a failed grow the chunks accepted so far are never terminated / published" % len(ind), C.loc(fm))
 
     # --- R10 Rust-owned grow
+    # the capacity the new writer publishes is the capacity of the block it allocated (write_str trusts `cap` and copies up to it without asking grow)
+    cr_ = rt.fn("diplomat_buffer_write_create")
+    aggs_ = C.ctor_aggs(rt, cr_, "DiplomatWrite")
+    if len(aggs_) != 1:
+        ck.bad("R10", "create/cap-is-the-allocation's", "cannot find the one DiplomatWrite the constructor builds (%d found)" % len(aggs_), C.loc(cr_))
+    else:
+        flds_ = aggs_[0][2]
+        alloc_args = [C.sym_strip(y[2][0]) for y in C.sym_walk(flds_.get("buf")) if isinstance(y, tuple) and y and y[0] == "call" and str(y[1]).endswith("Vec::with_capacity") and len(y) > 2 and y[2]]
+        capv_ = C.sym_strip(flds_.get("cap"))
+        from_vec = isinstance(capv_, tuple) and capv_ and capv_[0] == "call" and str(capv_[1]).endswith("::capacity")
+        ck.expect(bool(alloc_args) and (from_vec or capv_ == alloc_args[0]), "R10", "create/cap-is-the-allocation's", "cap = %s, allocated with_capacity(%s)" % (sym_show(capv_), sym_show(alloc_args[0]) if alloc_args else "?"),
+                  "diplomat_buffer_write_create allocates with_capacity(%s) but publishes cap = %s: write_str copies up to `cap` bytes into the block without calling grow" %
+                  (sym_show(alloc_args[0]) if alloc_args else "?", sym_show(capv_)), C.loc(cr_))
     f = writer_slots(rt, "diplomat_buffer_write_create").get("grow")
     if f is None:
         raise C.CheckError("cannot resolve the grow callback installed by diplomat_buffer_write_create")
